@@ -87,6 +87,22 @@ def strip_lifetimes(t):
     return re.sub(r"'\w+\s*,?\s*", '', t)
 
 
+def _type_shape(t):
+    """type text with module paths removed and generic arguments blanked: `(a::Sender<T>, b::Duration)` -> `(Sender<_>,Duration)`"""
+    t = _TRIM_MODS.sub('', t.replace(' ', ''))
+    out, depth = [], 0
+    for c in t:
+        if c == '<':
+            if depth == 0:
+                out.append('<_>')
+            depth += 1
+        elif c == '>':
+            depth -= 1
+        elif depth == 0:
+            out.append(c)
+    return ''.join(out)
+
+
 _TRIM_MODS = re.compile(r'(?<![\w:])(?:[a-z_][a-z0-9_]*::)+(?=[A-Z])')
 _IMPL_AT = re.compile(r'<impl at ([^:>]+):(\d+):(\d+): (\d+):(\d+)>')
 
@@ -163,6 +179,14 @@ class Program:
                     out.append(b)
             if len(out) == 1:
                 return out[0]
+            if len(out) > 1 and trait_last in ('From', 'TryFrom'):
+                # several `impl From<X> for T`: tell them apart by the shape of X against the impl's argument type
+                mm = re.search(r' as (?:\w+::)*(?:From|TryFrom)<(.*)>>::\w+$', text)
+                if mm:
+                    want = _type_shape(mm.group(1))
+                    same = [b for b in out if len(b.args) == 1 and _type_shape(b.args[0][1]) == want]
+                    if len(same) == 1:
+                        return same[0]
             if len(out) > 1:
                 return self._disamb(out, text)
             # impls generated by a custom derive (one span for several traits, e.g. prost::Enumeration => From / TryFrom): match on the signature
